@@ -160,6 +160,7 @@ fn judge_in_process(row: &Row, ctx: &mut Ctx, tag: &str) -> Judged {
     if row.nontrivial() {
         ctx.nontrivial(row.id().as_bytes());
     }
+    ctx.sample(src.len(), || json!({"source": src, "expected": format!("{:?}", want), "profile": tag}));
     Ok(())
 }
 
